@@ -10,7 +10,7 @@ SPEC = Spec(
         # deterministic, gated histories: exact differential (D) against the LTS + Lean trace monitor (M) + Go oracles
         Harness(name="runloop", module="otelcol", pkg="otelcol",
                 files={"zz_verif_c20_runloop_test.go": "c20/runloop_test.go"},
-                test="TestVerifC20RunLoop", driver="drv_c20", n={"quick": 4000, "thorough": 40000}, timeout_s=1500),
+                test="TestVerifC20RunLoop", driver="drv_c20", n={"quick": 4000, "thorough": 30000}, timeout_s=1500),
         # exhaustive small scope: every script over the gate alphabet up to length n (3 anchors), same protocol and model
         Harness(name="exhaustive", module="otelcol", pkg="otelcol",
                 files={"zz_verif_c20_runloop_test.go": "c20/runloop_test.go", "zz_verif_c20_exhaustive_test.go": "c20/exhaustive_test.go"},
@@ -26,11 +26,11 @@ SPEC = Spec(
         # provider goroutines notify the REAL resolver in bursts (change / error) during start-up, reloads, Running (monitored only)
         Harness(name="watchburst", module="otelcol", pkg="otelcol",
                 files={"zz_verif_c20_runloop_test.go": "c20/runloop_test.go", "zz_verif_c20_watchburst_test.go": "c20/watchburst_test.go"},
-                test="TestVerifC20WatchBursts", driver="drv_c20", n={"quick": 150, "thorough": 2000}, timeout_s=1500),
+                test="TestVerifC20WatchBursts", driver="drv_c20", n={"quick": 150, "thorough": 1200}, timeout_s=1500),
         # native scheduling, no gates: monitored only (M)
         Harness(name="race", module="otelcol", pkg="otelcol",
                 files={"zz_verif_c20_runloop_test.go": "c20/runloop_test.go"},
-                test="TestVerifC20Race", driver="drv_c20", n={"quick": 700, "thorough": 7000}, timeout_s=1500),
+                test="TestVerifC20Race", driver="drv_c20", n={"quick": 700, "thorough": 5000}, timeout_s=1500),
     ],
     rule="runloop: the real otelcol.Collector (real ConfigProvider/confmap.Resolver, real service.Service) with an instrumented "
          "confmap provider and instrumented receiver/exporter/extension factories; the Run goroutine is parked at gates inside the "
